@@ -38,6 +38,12 @@ PoolDq == PoolD({1, 2, 3}, {<<{}, FALSE>>}, {"on", "off"})
 PoolDt == PoolD({1, 2, 3}, Cond2, {"none", "on", "off"})
 PoolD4 == PoolD({1, 2, 3, 4}, {<<{}, FALSE>>}, {"on"})
 
+\* log / status fallback through JSON: an unconditional rule below a conditional one, both values of the flag
+PoolE(ids) ==
+  UNION { { R(i, rk, TRUE, cd, AddOwn(i), "", <<>>, lg, FALSE, FALSE, "none") :
+              rk \in {0, 1}, cd \in Cond3, lg \in {"on", "off"} } : i \in ids }
+PoolEq == PoolE({1, 2})
+
 Q(k, c) == [k |-> k, c |-> c]
 Proxy(c) == << Q("status", 0), Q("status", c), Q("headers", c), Q("body", c), Q("log", c) >>
 ProxyHandoff(c) == << Q("status", 0), Q("handoff", 0), Q("headers", c), Q("status", c), Q("body", c), Q("log", c) >>
